@@ -131,7 +131,13 @@ class Run:
             for e in self.errors:
                 print('ANALYSIS-ERROR property=%s %s' % (self.prop, e))
             code = 2
-        if new and code == 0:
+        # a violation found by a rule that itself ran to completion stands, whatever happened to other rules; one found
+        # by a rule that could not complete its own analysis is not believed
+        broken_rules = {e.split(':', 1)[0] for e in self.errors}
+        reportable = [f for f in new if f.rule not in broken_rules and self.prop not in broken_rules]
+        hidden = [f for f in new if f not in reportable]
+        if reportable:
+            new_all, new = new, reportable
             out = os.environ.get('VERIF_OUT', VERIF)
             os.makedirs(os.path.join(out, 'replay'), exist_ok=True)
             for f in new:
@@ -157,9 +163,8 @@ class Run:
                 for w in f.witness[:12]:
                     print('    ' + w)
             code = 1
-        elif new:
-            for f in new:
-                print('  (unreported because analysis is broken) %s %s %s :: %s -- %s' % (f.where, f.rule, f.construct, f.what, f.reason))
+        for f in hidden:
+            print('  (unreported because the analysis of its rule is broken) %s %s %s :: %s -- %s' % (f.where, f.rule, f.construct, f.what, f.reason))
         self.write_evidence(len(new), [f for f, _ in listed])
         total = sum(r['instances'] for r in self.rules.values())
         print(
